@@ -602,6 +602,14 @@ def l2_fn(sc, n, keys, twin=False):
         e.notes['durations'] = [k for k, d in L2CTX['durs'] if isinstance(d, Sym)]
         if twin:
             return False
+        # observables of the unit's month as named values: known-finding predicates are written over what the month looks like
+        # (peak days, peaks, durations), however the raw profile produced it
+        mm = sc.m
+        for nm, val, kind in (('obs_dayc', hl.monthly_peak_cl_day[mm], 'int'), ('obs_dayh', hl.monthly_peak_hl_day[mm], 'int'),
+                              ('obs_pcl', hl.monthly_peak_cl[mm], 'real'), ('obs_phl', hl.monthly_peak_hl[mm], 'real'),
+                              ('obs_dc', hl.monthly_peak_cl_duration[mm], 'real'), ('obs_dh', hl.monthly_peak_hl_duration[mm], 'real')):
+            o = e.int(nm) if kind == 'int' else e.real(nm)
+            e.add(o.t == (lift(val) if kind == 'int' else toreal(lift(val))))
         return conj(l2_checks(hl, raw, n, sc, keys))
     return fn
 
